@@ -12,6 +12,6 @@ OneFault(ro) == {f \in [Node -> {"none", "init", "after", "run"}] :
                    /\ Cardinality({n \in Node : f[n] # "none"}) <= 1
                    /\ \A n \in Node : f[n] = "run" => n \in {ro[i] : i \in 1..Len(ro)}}
 Fam == UNION {{[single |-> g, selfOpt |-> AllFalse, slice |-> Empty, sliceOpt |-> AllFalse, lazy |-> lz, wrap |-> NoWrap, fail |-> fl,
-                procs |-> <<>>, mode |-> [n \in Node |-> "normal"], rorder |-> ro] :
+                procs |-> <<>>, mode |-> [n \in Node |-> "normal"], rorder |-> ro, ilook |-> NoLook] :
                   g \in [Node -> SUBSET Node], lz \in SUBSET Node, fl \in OneFault(ro)} : ro \in ROrders}
 =============================================================================
